@@ -1,8 +1,8 @@
 (* C01 — flatten then unflatten reconstructs the same tree.
    This file contains only statements, each closed by [exact] of a lemma proved in proofs/, and a
    Print Assumptions per theorem. *)
-From OptreeModel Require Import Base Tree Flatten Unflatten.
-From OptreeProofs Require Import RoundTrip Replace.
+From OptreeModel Require Import Base Tree Flatten Unflatten Spec Construct.
+From OptreeProofs Require Import RoundTrip Replace Subst.
 
 (* For every configuration (none_is_leaf, namespace, any predicate, any registry, any dict-order
    mode, any depth limit) and every well-formed object: if flatten succeeds, unflattening the
@@ -51,3 +51,20 @@ Example C01_example_nonvacuous :
   wf_obj o = true /\
   exists ls sp, flatten c o = Ok (ls, sp) /\ length ls = 6%nat /\ unflatten sp ls = Ok o.
 Proof. vm_compute. split; [reflexivity|]. eexists. eexists. repeat split. Qed.
+
+(* THE GENERAL SUBSTITUTION LAW. Unflattening a treespec with ARBITRARY well-formed trees in the leaf
+   positions (not only leaf-typed objects) and flattening the result: the leaves are the
+   concatenation of the replacement trees' leaves, and the treespec is the original one with every
+   leaf replaced by the treespec of the tree put there (Subst). The budget is the sum of the two
+   budgets: the rebuilt tree is as deep as the two together. tree_map with tree-valued functions,
+   tree_broadcast_prefix / tree_broadcast_common and tree_transpose are instances. *)
+Theorem C01_unflatten_trees_then_flatten :
+  forall c o ls sp outs rs f2,
+    c_pred c = None -> wf_obj o = true -> flatten c o = Ok (ls, sp) ->
+    length outs = length ls ->
+    Forall2 (fun x r => tflat c f2 x = Ok r) outs rs -> forallb wf_obj outs = true ->
+    exists o' t t' b, decode (trav sp) = Some t /\
+      unflatten sp outs = Ok o' /\ wf_obj o' = true /\ Subst t (map r_t rs) t' /\
+      tflat c (S (c_limit c) + f2) o' = Ok (concat (map r_l rs), t', b || existsb r_b rs).
+Proof. exact unflatten_trees_then_flatten. Qed.
+Print Assumptions C01_unflatten_trees_then_flatten.
